@@ -735,7 +735,7 @@ def results_option_free(ctx, rule='C16.results-option-free'):
         exempt |= {g for g in F.reachable_fns([ck])}
     n = 0
     for fn in sorted(F.fns, key=lambda g: g.path):
-        owner = fn.owner if fn.kind == 'Closure' else fn
+        owner = (fn.owner or fn) if fn.kind == 'Closure' else fn
         if owner in exempt or (fn.self_adt and last_seg(fn.self_adt) == 'OpenOptions'):
             continue
         origins = {bb: v for bb, v in c06._error_origins(fn).items() if v not in ('Io', 'IO', 'IOError', 'ReadOnlyTx')}
@@ -884,6 +884,102 @@ def flags_flow(ctx, rule='C16.flags-flow'):
     return res
 
 
+def pagesize_limits(ctx, rule='C16.pagesize-limits'):
+    """the only limits on the page size are the ones the builder states (a minimum, a multiple of 8): nowhere else is a page size compared with a constant.  A "plausibility"
+    bound in the header validation or an assumed maximum turns a configuration the builder accepts into files that cannot be opened, or into different behaviour above it"""
+    res = []
+    F = ctx.facts
+
+    def is_ps(e):
+        while e[0] == 'un' or (e[0] == 'call' and len(e[2]) == 1 and last_seg(strip_generics(e[1])) in ('deref', 'clone', 'from', 'into')):
+            e = e[2] if e[0] == 'un' else e[2][0]
+        return e[0] == 'field' and e[2] and e[2][-1] in ('pagesize', 'page_size')
+
+    def is_const(e):
+        if e[0] == 'const':
+            return isinstance(e[1], int) and e[1] > 8
+        if e[0] == 'bin' and e[1] in ('Mul', 'Shl', 'Add'):
+            return is_const(e[2]) or is_const(e[3]) and e[2][0] == 'const' and e[3][0] == 'const'
+        return False
+    n = 0
+    for fn in sorted(F.fns, key=lambda g: g.path):
+        owner = (fn.owner or fn) if fn.kind == 'Closure' else fn
+        if owner.self_adt and last_seg(owner.self_adt) == 'OpenOptions':
+            continue
+        du = None
+        for bb in sorted(fn.reachable_blocks()):
+            for si, st in enumerate(fn.blocks[bb]['stmts']):
+                if st['k'] != 'assign' or st['rv']['k'] != 'bin' or st['rv']['op'] not in ('Lt', 'Le', 'Gt', 'Ge'):
+                    continue
+                if st.get('span') and in_dbg(st['span']):
+                    continue
+                du = du or ctx.du(fn)
+                a, b = du.sym(st['rv']['a']), du.sym(st['rv']['b'])
+                if (is_ps(a) and is_const(b)) or (is_ps(b) and is_const(a)):
+                    n += 1
+                    res.append(bad(rule, '%s | page size compared with a constant' % fn.qual,
+                                   '%s compares a page size with the constant %s at %s: the builder accepts every multiple of 8 from 1024 up, so a bound stated anywhere else '
+                                   'makes some accepted configuration behave differently (a header that no longer validates, a path that is never taken)'
+                                   % (fn.qual, _fmt(b if is_ps(a) else a), fn.loc(bb, si)), where=fn.loc(bb, si)))
+            t = fn.term(bb)
+            c = callee_of(t) if t['k'] == 'call' else None
+            if c and last_seg(strip_generics(c['path'])) == 'contains' and 'ops::Range' in c['path'] and len(t['args']) == 2:
+                du = du or ctx.du(fn)
+                if is_ps(du.sym(t['args'][1])):
+                    n += 1
+                    res.append(bad(rule, '%s | page size tested against a constant range' % fn.qual,
+                                   '%s tests a page size against a range at %s: the builder accepts every multiple of 8 from 1024 up, a range stated anywhere else rejects or '
+                                   'special-cases configurations the builder accepts' % (fn.qual, fn.loc(bb)), where=fn.loc(bb)))
+    if not n:
+        res.append(ok(rule, 'no page size is compared with a constant outside the builder', sites=1))
+    return res
+
+
+def in_dbg(span):
+    from util import in_debug_assert
+    return in_debug_assert(span)
+
+
+def count_check_refusals(ctx):
+    import c06
+    F = ctx.facts
+    ck = ctx.A.get('check-role')
+    sites = {}
+    if ck is None:
+        return dict(total=0, sites={})
+    for g in F.reachable_fns([ck]):
+        for bb, v in c06._error_origins(g).items():
+            if v not in ('Io', 'IO'):
+                k = 'Error::%s in %s' % (v, g.qual)
+                sites[k] = sites.get(k, 0) + 1
+    return dict(total=sum(sites.values()), sites=sites)
+
+
+def check_refusals(ctx, rule='C16.check-refusals'):
+    """strict mode runs the built-in check inside every commit, so whatever the check refuses, a strict-mode commit refuses and a non-strict one accepts: the check may
+    refuse only what is really malformed.  Its refusal sites are counted against the pinned tree; a new one (a "branch page with a single child" test -- the merge pass
+    legitimately leaves such pages) makes strict mode reject histories that are fine"""
+    import json, os, c15
+    res = []
+    if not os.path.exists(c15.PINNED):
+        return [unresolved(rule, 'format_pinned.json')]
+    pin = json.load(open(c15.PINNED)).get('check_refusals')
+    if pin is None:
+        return [unresolved(rule, 'check_refusals in format_pinned.json')]
+    cur = count_check_refusals(ctx)
+    f = floor(rule, 'refusal sites of the built-in check', cur['total'], 1)
+    if f:
+        res.append(f)
+    if cur['total'] > pin['total']:
+        new = sorted(k for k, v in cur['sites'].items() if v > pin['sites'].get(k, 0))
+        res.append(bad(rule, 'check | more refusal sites than the pinned tree (%d > %d)' % (cur['total'], pin['total']),
+                       'the built-in consistency check can refuse a database at %d sites, the pinned tree at %d (new or grown: %s): what it newly refuses, a strict-mode commit '
+                       'rejects and a non-strict commit accepts' % (cur['total'], pin['total'], ', '.join(new) or '-')))
+    else:
+        res.append(ok(rule, 'the built-in check refuses at %d sites, the pinned tree at %d' % (cur['total'], pin['total']), sites=cur['total']))
+    return res
+
+
 def thresholds(ctx, rule='C16.thresholds'):
     """split / merge decisions are relative to the configured page size, not to a constant"""
     res = []
@@ -936,12 +1032,15 @@ def run(ctx, tier):
     results += block_extent(ctx)
     results += commit.complete_writes(ctx, rule='C16.complete-writes')
     results += c05.freelist_is_set(ctx, rule='C16.freelist-set')
+    results += c05.freelist_order(ctx, rule='C16.freelist-order')
     import c15
     results += c15.open_refusals(ctx, rule='C16.open-refusals')
     import c05
     # a run freed or sized with the wrong length loses pages only where values overflow a page, i.e. depending on the page size (and strict mode then rejects what non-strict accepts)
     results += c05.run_length(ctx, rule='C16.run-length')
     results += thresholds(ctx)
+    results += pagesize_limits(ctx)
+    results += check_refusals(ctx)
     import c02
     results += c02.reload_rule(ctx, rule='C16.reload')
     import c06, c09
